@@ -211,6 +211,15 @@ func runC20(c *Ctx) {
 			r, ok := in.(*ssa.Return)
 			return ok && in.Block().Comment == "if.then" && len(r.Results) == 2
 		}), "return", AnyReturn())
+		// the caller's buffer is filled from offset 0 by either the left-over or the frame, never by both: a second copy
+		// overwrites bytes the first delivered and the count returned covers only one of them
+		intoData := func(in ssa.Instruction) bool {
+			cc := callCommon(in)
+			return cc != nil && calleeNameNoPath(cc) == "copy" && len(cc.Args) == 2 && re(`^data(\[|$)`).MatchString(pathOf(cc.Args[0]))
+		}
+		c.AtMostOncePerPath(fn, "copy into the caller's buffer", intoData)
+		nd := len(findInstrs(fn, intoData))
+		c.Check("O", fnName(fn)+"/two delivery sites (left-over, fresh frame)", nd == 2, fn.Pos(), nd, "")
 		n := len(findInstrs(fn, CallTo(`^io\.ReadFull$`, "")))
 		c.Check("O", fnName(fn)+"/reads exactly one sealed frame per call", n == 1, fn.Pos(), n, "")
 		c.CriticalSection(fn, `^&sc\.recvMtx`, "buffer test, frame read, open and nonce increment", Or(incr, isFrameCopy, StoreTo(`^&sc\.recvBuffer$`), CallTo(`^io\.ReadFull$`, "")))
